@@ -438,7 +438,7 @@ def check_stack(ctx, case, rows):
         row = rows["UserDefinedLikelihood:" + way]
         ctx.case(("udl", cid[0], way), facet="gradient_userdefined_likelihood")
         c03.judge(ctx, case, "gradient/%s/way=%s" % (ubase, way), row["value"], fc.call(lambda: L.gradient(np.array(xA))),
-                  gA if way == "gradient_func" else None, A["dim"], tag="UserDefinedLikelihood/" + way)
+                  gA, A["dim"], tag="UserDefinedLikelihood/" + way)       # (row Refused: a correct vector would be an observation)
         # sum rule: posterior of this likelihood and the Gaussian part as prior: log-density 2 E, gradient 2 gA
         st, P, _ = fc.call(lambda: cuqi.distribution.Posterior(L, _part(A, "x")))
         if st == "raise":
@@ -457,7 +457,7 @@ def check_stack(ctx, case, rows):
         else:
             ctx.case(("udlpost", cid[0], "refused"), facet="posterior_userdefined_likelihood")
             c03.judge(ctx, case, "gradient/posterior/%s/way=%s" % (ubase, way), "Refused", fc.call(lambda: P.gradient(np.array(xA))),
-                      None, A["dim"], tag="Posterior(UserDefinedLikelihood:none)")
+                      2 * gA, A["dim"], tag="Posterior(UserDefinedLikelihood:none)")
         st2 = fc.call(lambda: P.enable_FD())[0]
         if st2 == "value":
             ctx.case(("udlpost", cid[0], way, "fd"), facet="posterior_userdefined_likelihood")
